@@ -165,6 +165,7 @@ type World struct {
 	Flags     []string          // goderive flags
 	Negative  string            // description of the spliced unsupported constituent (C09)
 	RawFiles  map[string]string // extra verbatim files (relative path -> content)
+	PName     string            // package name of p ("" = p); the directory and import path stay .../p
 }
 
 // UserFunc is a hand-written function (possibly with a derive-like name).
@@ -199,13 +200,16 @@ var extStructs = map[string][]Field{
 	"ext.X":  {{Name: "Name", Ty: Basic("string")}, {Name: "ttl", Ty: Basic("int64")}, {Name: "at", Ty: Named("oext", "T")}, {Name: "when", Ty: Slice(Basic("int"))}},
 	"oext.T": {{Name: "a", Ty: Basic("bool")}, {Name: "B", Ty: Basic("string")}},
 	"oext.W": {{Name: "P", Ty: Ptr(Basic("int"))}, {Name: "Q", Ty: Map(Basic("string"), Basic("int"))}},
+	// package example.com/w/other/p has the same package name as the package under generation
+	"op.G":    {{Name: "A", Ty: Basic("int")}, {Name: "b", Ty: Basic("string")}},
+	"op.User": {{Name: "Name", Ty: Basic("string")}, {Name: "Tags", Ty: Slice(Basic("string"))}},
 }
 
 func (w *World) fieldsOf(t *Ty) ([]Field, bool) {
 	if t.K != "named" {
 		return nil, false
 	}
-	if t.Pkg == "ext" || t.Pkg == "oext" {
+	if t.Pkg == "ext" || t.Pkg == "oext" || t.Pkg == "op" {
 		f, ok := extStructs[t.Pkg+"."+t.Name]
 		return f, ok
 	}
@@ -217,7 +221,7 @@ func (w *World) fieldsOf(t *Ty) ([]Field, bool) {
 }
 
 func (w *World) under(t *Ty) *Ty {
-	if t.K == "named" && t.Pkg != "ext" && t.Pkg != "oext" {
+	if t.K == "named" && t.Pkg != "ext" && t.Pkg != "oext" && t.Pkg != "op" {
 		if d := w.decl(t.Name); d != nil && !d.Struct {
 			return d.Under
 		}
@@ -356,7 +360,7 @@ func (w *World) OrderedBasic(t *Ty) bool {
 // underlying type is not a struct or basic is assignable to/from its
 // unnamed underlying type.
 func (w *World) assignKey(t *Ty) string {
-	if t.K == "named" && t.Pkg != "ext" && t.Pkg != "oext" {
+	if t.K == "named" && t.Pkg != "ext" && t.Pkg != "oext" && t.Pkg != "op" {
 		if d := w.decl(t.Name); d != nil && !d.Struct && d.Under.K != "basic" {
 			return "~" + d.Under.Str("")
 		}
